@@ -73,3 +73,60 @@ def isnn_body(msg, name):
 def infer_body(msg, mrar):
     assert outcome(BDS.infer, msg, mrar) == outcome(bds_spec.infer, msg, mrar), \
         "infer == EMPTY / register of the type code / sorted comma-joined set of matching registers / None"
+
+
+def _native_is50or60(msg, spd_ref, trk_ref, alt_ref):
+    """reference for is50or60 (native only): None unless both; 'BDS50' when the BDS 6,0 reading is
+    aerodynamically inconsistent; otherwise the reading whose velocity vector is closest to the
+    reference (both when the needed fields are missing)"""
+    import math
+    if not (bds_spec.is50(msg) and bds_spec.is60(msg)):
+        return None
+    h60 = commb_spec.field_decoder("hdg60", msg)
+    m60 = commb_spec.field_decoder("mach60", msg)
+    i60 = commb_spec.field_decoder("ias60", msg)
+    if m60 is not None and i60 is not None:
+        if abs(i60 - float(AERO.mach2cas(float(m60), alt_ref * 0.3048)) / 0.514444) > 20:
+            return "BDS50"
+    if h60 is None or (m60 is None and i60 is None):
+        return "BDS50,BDS60"
+    h50 = commb_spec.field_decoder("trk50", msg)
+    v50 = commb_spec.field_decoder("gs50", msg)
+    if h50 is None or v50 is None:
+        return "BDS50,BDS60"
+
+    def vxy(v, ang):
+        return v * math.sin(math.radians(ang)), v * math.cos(math.radians(ang))
+    cands = [("BDS50", vxy(float(v50) * 0.514444, float(h50)))]
+    if m60 is not None:
+        cands.append(("BDS60", vxy(float(AERO.mach2tas(float(m60), alt_ref * 0.3048)), float(h60))))
+    if i60 is not None:
+        cands.append(("BDS60", vxy(float(AERO.cas2tas(float(i60) * 0.514444, alt_ref * 0.3048)), float(h60))))
+    mu = vxy(spd_ref * 0.514444, trk_ref)
+    best = min(cands, key=lambda c: math.hypot(c[1][0] - mu[0], c[1][1] - mu[1]))
+    return best[0]
+
+
+def sample_5060(rng, fixed):
+    # payloads that satisfy both format rules reasonably often: clear most status bits
+    bits = [rng.choice("01") for _ in range(56)]
+    for sb, lo, hi in ((1, 2, 12), (13, 14, 23), (24, 25, 34), (35, 36, 45), (46, 47, 56)):
+        if rng.random() < 0.55:
+            for k in range(sb, hi + 1):
+                bits[k - 1] = "0"
+        else:
+            bits[sb - 1] = "1"
+            for k in range(lo, lo + 3):
+                bits[k - 1] = "0"
+    head = "10100" + "".join(rng.choice("01") for _ in range(27))
+    par = "".join(rng.choice("01") for _ in range(24))
+    return {"msg": hex_of_bits(head + "".join(bits) + par)}
+
+
+@harness("C12", inputs={"msg": HexStr(28), "spd": RealRange(0, 600), "trk": RealRange(0, 360), "alt": RealRange(0, 45000)},
+         kind="bounded", functions=["pyModeS.decoder.bds.is50or60"], sampler=sample_5060,
+         note="is50or60 goes through numpy arrays with NaN, np.linalg.norm and np.nanargmin: outside the executor's "
+              "subset; compared natively with a scalar reference on sampled payloads (labelled bounded)")
+def is50or60_bounded(msg, spd, trk, alt):
+    assert BDS.is50or60(msg, spd, trk, alt) == _native_is50or60(msg, spd, trk, alt), \
+        "is50or60 == None unless both; else the interpretation closest to the reference (bounded)"
